@@ -54,6 +54,11 @@ func (l *vlistener) Close() error {
 		return errListenerClosed
 	}
 	vsymSignal(&l.closed)
+	// connections still waiting in the accept queue are reset, as the kernel does
+	for _, c := range l.queue {
+		c.Close()
+	}
+	l.queue = nil
 	vsymSignal(&l.wake)
 	return nil
 }
